@@ -12,3 +12,5 @@ import MW.Props.C15
 #print axioms MW.Props.C15.state_query_rate
 #print axioms MW.Props.C15.no_oracle_posts_nothing
 #print axioms MW.Props.C15.resume_succeeds_without_oracle
+#print axioms MW.Props.C15.oracle_optional
+#print axioms MW.Props.C15.oracle_optional_posts_nothing
